@@ -190,8 +190,9 @@ class _TzdbStreamData:
                         raise InvalidPyodaDataError(f"Unknown time zone type {type_.name}")
         except InvalidPyodaDataError:
             raise
-        except (ValueError, OverflowError, LookupError, struct.error) as e:
-            # Values decoded from damaged data may be rejected by the constructors they are passed to.
+        except (ValueError, OverflowError, LookupError, struct.error, RuntimeError) as e:
+            # Values decoded from damaged data may be rejected by the constructors they are passed to
+            # (RuntimeError: recurrence rules that never alternate are refused when the tail zone is first asked).
             raise InvalidPyodaDataError(f"Invalid data for time zone {canonical_id}: {e}") from e
 
     @staticmethod
